@@ -575,6 +575,54 @@ MODELS = {
     int.from_bytes: m_int_from_bytes,
     memoryview: lambda x: x if isinstance(x, SymBytes) else memoryview(x),
 }
+import hashlib as _hashlib
+
+
+class SymHash:
+    """hashlib object that hashes for real while everything fed to it is concrete and degrades to an
+    *uninterpreted* digest (fresh symbolic bytes) once symbolic data has been hashed: sound for code that only
+    stores the digest, inconclusive (non-reproducing) for code whose verdict depends on it"""
+
+    def __init__(self, ctor, data=b""):
+        self._h = ctor()
+        self._tainted = False
+        self.digest_size = self._h.digest_size
+        self.name = self._h.name
+        if data:
+            self.update(data)
+
+    def update(self, data):
+        if has_sym(data):
+            self._tainted = True
+            return
+        self._h.update(unwrap(data) if isinstance(data, SymBytes) else data)
+
+    def digest(self):
+        if not self._tainted:
+            return self._h.digest()
+        eng = cur()
+        eng._fresh = getattr(eng, "_fresh", 0) + 1
+        out = []
+        for i in range(self.digest_size):
+            v = z3.BitVec(f"_hash{eng._fresh}_{i}", _core.W)
+            eng.solver.add(z3.ULE(v, 255))
+            out.append(SymInt(v, 0, 255))
+        return SymBytes(out)
+
+    def hexdigest(self):
+        if not self._tainted:
+            return self._h.hexdigest()
+        raise Unsupported("hexdigest of a hash over symbolic data")
+
+    def copy(self):
+        c = SymHash.__new__(SymHash)
+        c._h = self._h.copy()
+        c._tainted = self._tainted
+        c.digest_size = self.digest_size
+        c.name = self.name
+        return c
+
+
 import posixpath as _pp
 
 
@@ -600,6 +648,9 @@ MODELS[_stat_mod.S_IFMT] = lambda m: m & 0o170000
 MODELS[_stat_mod.S_IMODE] = lambda m: m & 0o7777
 # models that must be used even when no argument is symbolic (identity-bearing objects)
 ALWAYS = {bytearray, io.BytesIO}
+for _ctor in (_hashlib.sha1, _hashlib.sha256):
+    MODELS[_ctor] = (lambda c: (lambda *a, **k: SymHash(c, *a)))(_ctor)
+    ALWAYS.add(_ctor)
 
 # C-level callables that are safe to run natively on proxy arguments because they
 # only use the (proxied) rich comparison / iteration / truth protocols
